@@ -129,7 +129,6 @@ class _Quantifier(_UnaryOperator):
             bound = Bound.UPPER if isinstance(self, Forall) else Bound.LOWER
 
         result = 0
-        bounds_table = []
         for indices in grouped:
             grounding = tuple(df.iloc[indices[0], :].tolist()[:-1])
             arity = len(indices)
@@ -149,9 +148,8 @@ class _Quantifier(_UnaryOperator):
 
             ib = input_bounds[indices].permute([1, 0])[None, :, :]
             result += neuron.aggregate_bounds([0], neuron.func(ib), bound)
-            bounds_table.append(neuron.get_data())
 
-        self.neuron.bounds_table = torch.vstack(bounds_table)
+        self.neuron.bounds_table = torch.vstack([n.get_data() for n in self.neurons])
 
         return result
 
